@@ -15,7 +15,7 @@ TECHNIQUE = ("property-based testing (Hypothesis): generated tiny distribution i
 LEVEL_TEXT = ("Generated instances: computation graphs of 1-5 computations (constraints hypergraph, factor graph, "
               "pseudo-tree, ordered graph for oilp_cgdp; factor graph for ilp_fgdp) from generated DCOPs, 1-3 agents, "
               "generated footprints, capacities (ample, tight, mixed), default and specific hosting costs (0 = "
-              "pinned), a common default route and symmetric specific routes, message loads from symmetric or "
+              "pinned), a common default route and specific routes (a quarter of them direction-dependent), message loads from symmetric or "
               "asymmetric tables or from the algorithm module. Oracle: all |agents|^|computations| <= 243 mappings "
               "are enumerated; those satisfying the method's hard rules (capacity, hosted once, zero hosting cost => "
               "pinned on that agent, ilp_fgdp: every agent hosts something) form the feasible set; every one is "
@@ -32,7 +32,7 @@ LEVEL_NOTE = ("Trusted: the enumeration in this file; the method's own distribut
 RULE = ("case = DCOP + graph model + agents + cost tables + method; non-trivial = >=2 agents, >=3 computations, a "
         "feasible set of >=2 mappings with >=2 distinct costs; distinct by sha1(case)")
 ASSUMPTIONS = ["glpsol is absent: the ILP methods are solved by CBC through a harness-side substitution of GLPK_CMD",
-               "route tables are symmetric with one common default"]
+               "one common default route"]
 BUDGET = {"quick": {"workers": 8, "examples": 110, "seconds": 50},
           "thorough": {"workers": 16, "examples": 900, "seconds": 1200}}
 
@@ -74,7 +74,9 @@ def cases(draw):
             if draw(st.booleans()):
                 r = draw(st.sampled_from([0, 1, 3, 0.5, 10]))
                 agents[i]["routes"][agents[j]["name"]] = r
-                agents[j]["routes"][agents[i]["name"]] = r
+                # the API accepts direction-dependent route costs (only the YAML format cannot express them)
+                agents[j]["routes"][agents[i]["name"]] = draw(st.sampled_from([0, 1, 3, 0.5, 10])) \
+                    if draw(st.integers(0, 3)) == 0 else r
     return {"dcop": dcop, "graph": graph, "method": method, "agents": agents,
             "costs": draw(st.sampled_from(["sym", "sym", "asym", "algo"])),
             "footprint": draw(st.lists(st.sampled_from([0, 1, 2, 3, 5, 8, 2.5]), min_size=5, max_size=5)),
